@@ -452,10 +452,17 @@ func checkC16(c *Ctx) {
 			}
 			c.Check(isExt(from, 1) && isExt(dom, 0), G2, FuncName(fn), "attributed id and domain", sp, "From/Domain ← results of authenticateConnection", "the emitted message is not attributed to the authenticated identity")
 			// the same conn is authenticated and read
-			okC := strip(ac.Call.Args[1]) == strip(handle.Params[1])
+			// handleConn's connection: its parameter of type net.Conn
+			var hconn ssa.Value
+			for _, hp := range handle.Params {
+				if isNamed(hp.Type(), "net", "Conn") {
+					hconn = strip(hp)
+				}
+			}
+			okC := hconn != nil && strip(ac.Call.Args[1]) == hconn
 			for _, cl := range instrsOf(handle) {
 				if call, ok := cl.(*ssa.Call); ok {
-					if cal := staticCallee(&call.Call); cal != nil && cal.Name() == "readMsg" && strip(call.Call.Args[0]) != strip(handle.Params[1]) {
+					if cal := staticCallee(&call.Call); cal != nil && cal.Name() == "readMsg" && strip(call.Call.Args[0]) != hconn {
 						okC = false
 					}
 				}
